@@ -1611,6 +1611,13 @@ impl<'a> Model<'a> {
                             }
                         }
                     }
+                    // An empty result is stored in the cell as the number 0: whoever reads
+                    // the cell during this pass must see what a later pass would read
+                    CalcResult::EmptyCell | CalcResult::EmptyArg
+                        if !matches!(original_cell, Cell::ArrayFormula { .. }) =>
+                    {
+                        CalcResult::Number(0.0)
+                    }
                     _ => result,
                 }
             }
